@@ -102,3 +102,12 @@ Definition c03_finite (l : list (option D)) : verdict :=
 (** default wavelength: exactly half of the extent (dyadic regions) *)
 Definition c03_half (lo hi w : D) : verdict :=
   let b := deq (dadd w w) (dsub hi lo) in mk_verdict b b.
+
+(** ** reduced-precision output (dtype="float32"): every entry is the double-precision kernel
+    value rounded to single precision - within 2^-22 of the reference entry's magnitude,
+    never looser.  [Jref] is computed in double precision from the double-precision coordinates. *)
+Definition tol22 : Q := 1 # (2 ^ 22).
+Definition close22 (ref x : Q) : bool := Qleb (Qabs (x - ref)) (tol22 * Qabs ref).
+
+Definition c03_close32 (J Jref : list (list D)) (flags : bool) : verdict :=
+  let b := flags && all2 (all2 close22) (Qm Jref) (Qm J) in mk_verdict b b.
